@@ -415,9 +415,22 @@ def proof_obligations(pid):
     if not ok:
         res['log'] = 'coq build failed: ' + log
         return res
-    rc, out, err = _run_coqc(src, 1200)
+    # The assumptions are read from a generated file that only `Require`s the freshly built
+    # Properties/<pid>.vo (nothing imported), so that every axiom prints under its qualified
+    # name whatever the Properties file itself imports (a file that imports PrimFloat would
+    # print `add` for PrimFloat.add, which the allow-list must not accept).
+    pa_dir = tempfile.mkdtemp(prefix='sp_pa_')
+    pa_file = os.path.join(pa_dir, f'PA_{pid}.v')
+    with open(pa_file, 'w') as f:
+        f.write(f'From SP Require Properties.{pid}.\n')
+        for nm in names:
+            f.write(f'Print Assumptions SP.Properties.{pid}.{nm}.\n')
+    try:
+        rc, out, err = _run_coqc(pa_file, 1200)
+    finally:
+        shutil.rmtree(pa_dir, ignore_errors=True)
     if rc != 0:
-        res['log'] = 'Properties file does not compile: ' + err[-3000:]
+        res['log'] = 'Print Assumptions of the Properties file failed: ' + err[-3000:]
         return res
     # split the output into one block per Print Assumptions
     blocks = re.split(r'(?=Closed under the global context|Axioms:)', out)
